@@ -170,9 +170,12 @@ def exec_for(it, node, fr):
             except I.ContinueSig:
                 continue
         else:
-            # guarded iteration: body under guard, merged (order-independent bodies only)
+            # guarded iteration: body under guard, merged (order-independent bodies only).  The
+            # loop target is bound unconditionally (its value after a loop over a set is
+            # unspecified in Python anyway); otherwise the two branches could not be merged.
+            it.assign(node.target, x, fr)
+
             def body(x=x):
-                it.assign(node.target, x, fr)
                 try:
                     it.ex_block(node.body, fr)
                 except I.ContinueSig:
